@@ -334,8 +334,58 @@ class Prog:
                     k = ("bin/" if im["_target"] == "bin" else "") + m["key"]
                     self._trait_impl_methods[(im["trait"], m["name"])].append(k)
         self._cg = None
+        self._fnptr = None
 
     # ------------------------------------------------------------------
+    def fnptr_targets(self):
+        """address-taken analysis for fn-pointer calls: (target, fn-pointer type) -> set of local fn keys coerced to that type anywhere in the
+        crate, plus `unresolved`: the pointer types into which something is coerced that is not a local function (a non-local fn item,
+        an `unsafe fn` re-typing, a transmute)"""
+        if self._fnptr is not None:
+            return self._fnptr
+        targets = defaultdict(set)
+        unresolved = set()
+        clos = {}
+        for f in self.fns.values():
+            if f.kind == "Closure":
+                sp = f.raw.get("span") or {}
+                clos[(f.target, sp.get("file"), sp.get("line"), sp.get("col"))] = f.key
+        for f in self.fns.values():
+            for _, s in f.stmts():
+                if s["k"] != "assign" or s["rv"]["k"] != "cast":
+                    continue
+                rv = s["rv"]
+                ck = rv.get("ck", "")
+                to = rv.get("to", "")
+                is_fnptr_ty = bool(re.match(r"^(for<[^>]*> )?(unsafe )?(extern \"[^\"]*\" )?fn\(", to))
+                if "ClosureFnPointer" in ck:
+                    m = re.match(r"^\{closure@([^:]+):(\d+):(\d+)", rv.get("from", ""))
+                    k = clos.get((f.target, m.group(1), int(m.group(2)), int(m.group(3)))) if m else None
+                    if k:
+                        targets[(f.target, to)].add(k)
+                    else:
+                        unresolved.add((f.target, to))
+                elif "ReifyFnPointer" in ck:
+                    fn_ = rv["op"].get("fn") or {}
+                    k = fn_.get("res_key") or fn_.get("key")
+                    cand = ("bin/" + k) if (k and f.target == "bin" and ("bin/" + k) in self.fns) else k
+                    if cand in self.fns:
+                        targets[(f.target, to)].add(cand)
+                    else:
+                        unresolved.add((f.target, to))
+                elif is_fnptr_ty:
+                    unresolved.add((f.target, to))
+        self._fnptr = (targets, unresolved)
+        return self._fnptr
+
+    def fnptr_callees(self, fn, call):
+        """local targets of an indirect call, or None when the pointer type cannot be resolved to a closed set of local functions"""
+        ty = call.func.get("ty", "")
+        targets, unresolved = self.fnptr_targets()
+        if (fn.target, ty) in unresolved or not targets.get((fn.target, ty)):
+            return None
+        return sorted(targets[(fn.target, ty)])
+
     def fn(self, spath, target=None):
         """unique function by short path (generic args stripped); None if absent"""
         c = [f for f in self.by_spath.get(spath, []) if target is None or f.target == target]
@@ -354,6 +404,8 @@ class Prog:
         """local callee function keys for a call (resolved, or CHA for unresolved trait calls)"""
         f = call.func
         if f.get("key") is None:
+            if f.get("indirect"):
+                return self.fnptr_callees(fn, call) or []
             return []
         pre = "bin/" if fn.target == "bin" else ""
         res = []
